@@ -34,7 +34,7 @@ def cell_hi(ax, j):
     return (ax.raw(j) + ax.raw(jp)) / 2
 
 
-def wf_grid(vc, d=1, name="axis"):
+def wf_grid(vc, d=1, name="axis", quantified=True):
     """a well-formed CTMC grid object (C13's postcondition) over an axis of symbolic length"""
     ax = vc.seq(name, "r", min_len=3)
     n = ax.length
@@ -44,8 +44,9 @@ def wf_grid(vc, d=1, name="axis"):
     # lemma AdjacentImpliesTransitive below); explicit instances at the indices the proofs use
     i_, j_ = z3.Int("wf_i"), z3.Int("wf_j")
     sel = lambda t: z3.Select(ax.arr, t)
-    vc.assume(Sym(z3.ForAll([i_, j_], z3.Implies(z3.And(0 <= i_, i_ < j_, j_ < as_int_term(lift(n))), sel(i_) < sel(j_)),
-                            patterns=[z3.MultiPattern(sel(i_), sel(j_))]), "b"))
+    if quantified:
+        vc.assume(Sym(z3.ForAll([i_, j_], z3.Implies(z3.And(0 <= i_, i_ < j_, j_ < as_int_term(lift(n))), sel(i_) < sel(j_)),
+                                patterns=[z3.MultiPattern(sel(i_), sel(j_))]), "b"))
     vc.assume(And(ax.raw(o) == 0, ax.raw(o - 1) == -h, ax.raw(o + 1) == h))
     vc.assume(And(ax.raw(0) <= ax.raw(o - 1), ax.raw(o + 1) <= ax.raw(n - 1)))
     grid = vc.obj(SP + "CTMCGrid", axes=[ax] * d, dimension=d, h=h, origin=(0.0 if d == 1 else tuple([0.0] * d)),
